@@ -311,7 +311,7 @@ func main() {
 	n := flag.Int("n", 100, "number of programs")
 	ntup := flag.Int("tuples", 8, "argument tuples per function")
 	tmp := flag.String("tmp", "", "scratch directory")
-	featStr := flag.String("feat", "logic", "comma separated feature switches: logic,ifnested,ifinit,compound,shadow,blank,forclauses")
+	featStr := flag.String("feat", "logic,ifinit,blank,rejects", "comma separated feature switches: logic,ifnested,ifinit,compound,shadow,blank,forclauses")
 	noOracle := flag.Bool("nooracle", false, "skip the go toolchain batch")
 	corpusDir := flag.String("corpus", "", "directory of hand-written programs (*.go, functions qf0..qfN) run before the generated ones")
 	flag.Parse()
@@ -337,6 +337,8 @@ func main() {
 			feat.blankParams = true
 		case "forclauses":
 			feat.forClauses = true
+		case "rejects":
+			feat.rejects = true
 		}
 	}
 	r := rand.New(rand.NewSource(*seed))
